@@ -76,6 +76,7 @@ def run(ctx, rep):
     rep.floor("C16.O2 unwrapped next()/last()", counts["O2"], 55)
     rep.floor("C16.O3 unwrapped single()", counts["O3"], 5)
     loop_boundary(F, rep)
+    literal_conversions(F, rep)
     rep.extra["analysis_rounds"] = fl.rounds
     rep.extra["hand_assembled_option_unwraps_counted_not_judged"] = getattr(fl, "uncounted", 0)
     # K4 panics outside the clause: counted
@@ -146,3 +147,30 @@ def loop_boundary(F, rep):
            "" if ok else "the scan continues past a function scope (or returns Ok at one): a `break` in a closure declared inside a loop is accepted and never resolved",
            f.span, fn=f.path, key=key)
     rep.floor("C16.loop-boundary decided", 1, 1)
+
+
+PARSE_CALLS = ("core::str::<impl str>::parse", "core::str::traits::FromStr::from_str")
+
+
+def literal_conversions(F, rep):
+    """Turning source text into a number is fallible for every integer type (the grammar bounds the *shape* of a literal, not its value:
+    `0b111111111` is a well-formed byte literal that does not fit a byte).  The Result of str::parse / from_str_radix on text must be
+    propagated, not unwrapped: an unwrap / expect there is a panic on a for-all-inputs basis, whatever the message says."""
+    import rules
+    from mir import op_local
+    n = 0
+    for f in F.crates["compiler"].fns:
+        for c in f.calls():
+            is_parse = c.matches(PARSE_CALLS) or "::from_str_radix" in c.callee()
+            if not is_parse:
+                continue
+            n += 1
+            der = f.derived([c.dst["l"]])
+            bad = [u for u in f.calls() if u.matches(("core::result::Result::unwrap", "core::result::Result::expect", "core::result::Result::unwrap_unchecked",
+                                                       "core::option::Option::unwrap", "core::option::Option::expect"))
+                   and u.args and op_local(u.args[0]) in der]
+            fshort = mir.short(re.sub(r"::\{closure#\d+\}", "::{closure}", f.path))
+            rep.ob("C16.literal", "%s: the result of %s on source text is propagated, not unwrapped" % (fshort, mir.short(mir.strip_generics(c.callee()))),
+                   "violated" if bad else "ok", "unwrapped at %s: a literal whose value does not fit the type panics the compiler" % [b.span for b in bad] if bad else "",
+                   c.span, fn=f.path, key="C16.literal|%s|%s" % (fshort, mir.short(mir.strip_generics(c.callee()))))
+    rep.floor("C16.literal text-to-number conversions", n, 5)
